@@ -2,6 +2,7 @@
    Self check: on states that satisfy the consistency hypothesis of C31_admit_iff, the implemented admission test
    (needed) and the specification (needed_spec) must agree on every entry; a difference is reported as MODELSELF. *)
 let hh = blake2b_n
+let blob_of_tok s = if s = "~" then [] else bytes_of_hex s
 let slots_of_tok s = if s = "-" then [] else List.map n_of_string (String.split_on_char ',' s)
 let tok_of_slots l = if l = [] then "-" else String.concat "," (List.map string_of_n l)
 
@@ -16,7 +17,7 @@ let read_state r : (n * account) list =
   times n (fun () ->
     let sid = n_of_string (next r) in
     let np = int_of_string (next r) in
-    let p = times np (fun () -> let hs = bytes_of_hex (next r) in let b = bytes_of_hex (next r) in (hs, b)) in
+    let p = times np (fun () -> let hs = bytes_of_hex (next r) in let b = blob_of_tok (next r) in (hs, b)) in
     let nl = int_of_string (next r) in
     let l = times nl (fun () ->
       let hs = bytes_of_hex (next r) in
@@ -31,7 +32,7 @@ let read_kvs r =
 let read_eps r =
   expect r "E";
   let n = int_of_string (next r) in
-  times n (fun () -> let s = n_of_string (next r) in let b = bytes_of_hex (next r) in (s, b))
+  times n (fun () -> let s = n_of_string (next r) in let b = blob_of_tok (next r) in (s, b))
 
 let dump (d : (n * account) list) : string =
   if d = [] then "-" else begin
